@@ -1663,7 +1663,8 @@ class _rrulestr(object):
 
         TZID_NAMES = dict(map(
             lambda x: (x.upper(), x),
-            re.findall('TZID=(?P<name>[^:]+):', s)
+            # A name ends at the next parameter (';') or at the value (':')
+            re.findall('TZID=(?P<name>[^:;]+)[:;]', s)
         ))
         s = s.upper()
         if not s.strip():
